@@ -21,6 +21,13 @@ class RequestTimeout(Exception):
     """The code under test did not return within the per-request time limit."""
 
 
+class RequestRunaway(Exception):
+    """One request issued an absurd number of storage writes (an unbounded loop in the code under test)."""
+
+
+WRITE_BUDGET = int(os.environ.get("VERIF_WRITE_BUDGET", "4000"))   # ordinary requests issue < 200 writes
+
+
 import signal  # noqa: E402
 
 OP_TIMEOUT = float(os.environ.get("VERIF_OP_TIMEOUT", "30"))   # generous: a loaded machine must not look like a hang
@@ -85,8 +92,14 @@ def _tag(block_size):
     return "T" if block_size == TRIE_BS else "L"
 
 
+def _budget():
+    if len(WRITE_LOG) > WRITE_BUDGET:
+        raise RequestRunaway("more than %d storage writes in one request" % WRITE_BUDGET)
+
+
 class RecFileStorage(_FileStorage):
     def write(self, data, block=None):
+        _budget()
         end = len(self)
         res = _FileStorage.write(self, data, block)
         WRITE_LOG.append((_tag(self.block_size), res if block is None else block,
@@ -104,6 +117,7 @@ class RecFileStorage(_FileStorage):
 
 class RecMemoryStorage(_MemoryStorage):
     def write(self, data, block=None):
+        _budget()
         end = len(self)
         res = _MemoryStorage.write(self, data, block)
         WRITE_LOG.append((_tag(self.block_size), res if block is None else block,
@@ -402,6 +416,7 @@ def apply_op(ix, op):
     Returns dict(exc=..., pages=..., created=..., ret=...)."""
     t = ix.t
     name = op["op"]
+    del WRITE_LOG[:]        # the write log (and the write budget) is per request
     if op.get("text"):      # drive the API with str arguments; the log keeps the bytes
         op = {k: (_as_text(v) if k in ("l", "ls", "pairs", "data", "ps", "p", "anchor") else v)
               for k, v in op.items()}
